@@ -260,17 +260,17 @@ def check_receive(c, w, rec, stream, tags, auto_pong=True, sock_id=0, bytewise_f
                             'ProtocolError after %d bytes, but the stream is conforming up to byte %d (%s)'
                             % (consumed, v['earliest'], v['kind']))
                 if is_utf8 and bytewise_failfast:
-                    bl = B(v['earliest'])
+                    bl = B(v.get('ff_limit', v['earliest']))
                     if bl is not None and consumed > bl:
                         ob.fail('C05', 'invalid UTF-8 certain after %d bytes but reported only after %d (not fail-fast)'
-                                % (v['earliest'], consumed))
+                                % (v.get('ff_limit', v['earliest']), consumed))
             else:
                 if complete:
                     ob.fail('C04', 'violating frame (%s) completely received but no ProtocolError (events %s)'
                             % (v['kind'], names))
-                elif is_utf8 and bytewise_failfast and B(v['earliest']) is not None:
+                elif is_utf8 and bytewise_failfast and B(v.get('ff_limit', v['earliest'])) is not None:
                     ob.fail('C05', 'invalid UTF-8 certain after %d bytes but never reported (not fail-fast; events %s)'
-                            % (v['earliest'], names))
+                            % (v.get('ff_limit', v['earliest']), names))
             # connection must end non-gracefully
             if names and names[-1] == 'disconnected':
                 if evs[-1].graceful and ref.server_close_at is None and (pe_idx or complete):
